@@ -1,7 +1,7 @@
 (* Element lists that the canonical printer and the parser take back and forth: the boolean
    hypothesis of the C10 round-trip theorem for Maven (shared with the harness, which checks
    it on every parsed list).  Definitions only. *)
-From DepsDev Require Import Lib.Base Semver.Version Semver.Maven Semver.MavenParse.
+From DepsDev Require Import Lib.Base Semver.Version Semver.Maven Semver.MavenParse Gen.MavenVariants.
 Local Open Scope Z_scope.
 
 (* a non-empty text whose bytes all have the same category, not separator *)
@@ -36,15 +36,29 @@ Definition mvn_list_eqb (a b : list mvn_elem) : bool :=
      | _, _ => false
      end) a b.
 
+(* what the first loop of init builds from the printed list, and what the parser returns for it,
+   by variant of the printer (h: a non-zero first separator is printed) *)
+Definition strip_with (h : bool) (l : list mvn_elem) : list mvn_elem := if h then map strip1 l else strip l.
+Definition head_with (h : bool) (l : list mvn_elem) : list mvn_elem := if h then l else head_sep0 l.
+
+Definition head_ok_b (h : bool) (l : list mvn_elem) : bool :=
+  match l with
+  | [] => true
+  | e0 :: _ => if h then N.eqb (me_sep e0) 0 || N.eqb (me_sep e0) 45 || N.eqb (me_sep e0) 46 else true
+  end.
+
 (* texts homogeneous and lower-case, separators '.' or '-', inside the modelled fragment, and a
-   fixed point of the trimming loop and of the integer pass *)
-Definition printable_b (l : list mvn_elem) : bool :=
+   fixed point of the trimming loop (z: variant of the zero test) and of the integer pass *)
+Definition printable_with (h z : bool) (l : list mvn_elem) : bool :=
   match l with
   | [] => true
   | e0 :: t =>
-      pstr_b (me_str e0) && forallb pe_b t
-      && bytes_eqb (to_lower (maven_canon l)) (maven_canon l)
-      && mvn_fragment (maven_canon l)
-      && match mvn_trim (strip l) with Ok l' => mvn_list_eqb l' (strip l) | _ => false end
-      && match mvn_ints (strip l) with Ok r => mvn_list_eqb (fst r) (head_sep0 l) | _ => false end
+      pstr_b (me_str e0) && forallb pe_b t && head_ok_b h l
+      && bytes_eqb (to_lower (maven_canon_with h l)) (maven_canon_with h l)
+      && mvn_fragment (maven_canon_with h l)
+      && match mvn_trim_with z (strip_with h l) with Ok l' => mvn_list_eqb l' (strip_with h l) | _ => false end
+      && match mvn_ints (strip_with h l) with Ok r => mvn_list_eqb (fst r) (head_with h l) | _ => false end
   end.
+
+(* the variant of the tree *)
+Definition printable_b (l : list mvn_elem) : bool := printable_with go_mvn_canon_head_sep mvn_fix_zero_spelling l.
